@@ -20,8 +20,8 @@ RULE = ("(a) random Node trees (all byte values, string / non-string / non-ASCII
 ASSUMPTIONS = ["nodes whose children are out of bounds or not ordered by start are outside the property's domain and only counted",
                "RecursionError on trees deeper than ~1000 is C01's finding"]
 EXPECTED_WALL = {"quick": 40, "thorough": 300}
-REQUIRED = {"flatten_judged": 5000, "flatten_substituted": 500, "scan_results_judged": 200, "identity_trees": 100,
-            "squash_compared": 500, "quoted_substitutions": 50, "incremental_expansions": 100}
+REQUIRED = {"flatten_judged": 625, "flatten_substituted": 62, "scan_results_judged": 25, "identity_trees": 12,
+            "squash_compared": 62, "quoted_substitutions": 6, "incremental_expansions": 12}
 
 
 def plan(tier, seed):
